@@ -15,6 +15,7 @@ translated fragment that preserves the meaning usually still goes through; a
 change of meaning (or of the hand-written model) makes this file fail to build.
 -/
 import CtyModel.Generated.OpsFns
+import CtyModel.Lemmas.MarksOps
 set_option linter.unusedSimpArgs false
 set_option linter.unusedVariables false
 namespace CtyModel
@@ -481,6 +482,123 @@ theorem mod_fuel_eq (n : Nat) (a b : Value) (ha : Single a) (hb : Single b) : Va
   binary_tie Value_Modulo_fuel modU mod_unmarked
     (fun n v w h => by rw [Value_Modulo_fuel]; simp [OpsGo.isMarked, h, OpsGo.unmark, OpsGo.withMarks, OpsGo.unionAll]) n a b ha hb
 
+/-! ### LessThan, GreaterThan (mutually recursive through the range bounds) -/
+
+theorem lt_known (n : Nat) (x y : Num) :
+    Value_LessThan_fuel (n + 1) (numVal x) (numVal y) = .ok (boolVal (decide (Num.cmp x y < 0))) := by
+  rw [Value_LessThan_fuel]
+  simp only [OpsGo.isMarked, show (numVal x).isMarked = false from rfl, show (numVal y).isMarked = false from rfl,
+    Bool.or_self, Bool.false_eq_true, if_false, after_typeCheck, tc2_none.mpr ⟨plain_numVal x, plain_numVal y⟩]
+  simp [OpsGo.asFloat, asNum, numVal]
+
+theorem gt_known (n : Nat) (x y : Num) :
+    Value_GreaterThan_fuel (n + 1) (numVal x) (numVal y) = .ok (boolVal (decide (Num.cmp x y > 0))) := by
+  rw [Value_GreaterThan_fuel]
+  simp only [OpsGo.isMarked, show (numVal x).isMarked = false from rfl, show (numVal y).isMarked = false from rfl,
+    Bool.or_self, Bool.false_eq_true, if_false, after_typeCheck, tc2_none.mpr ⟨plain_numVal x, plain_numVal y⟩]
+  simp [OpsGo.asFloat, asNum, numVal]
+
+theorem isTrue_boolVal (t : Bool) : OpsGo.isTrue (boolVal t) = .ok t := rfl
+theorem isKnown_numVal (x : Num) : OpsGo.isKnown (numVal x) = true := rfl
+theorem notDyn_of_isNumber {t : Ty} (h : t.isNumber = true) : t.isDyn = false := by
+  cases t <;> simp_all [Ty.isNumber, Ty.isDyn]
+
+/-- the upper / lower bound of a number range -/
+def hiOf (r : VRange) : Num := match r.raw with | .num _ _ (some b) => b.v | _ => .inf false
+def loOf (r : VRange) : Num := match r.raw with | .num _ (some b) _ => b.v | _ => .inf true
+
+theorem upper_of_number (r : VRange) (h : r.ty.isNumber = true) :
+    OpsGo.numberUpperBound r = .ok (numVal (hiOf r), true) := by
+  obtain ⟨ty, raw⟩ := r
+  have hd := notDyn_of_isNumber h
+  cases raw with
+  | num n lo hi => cases hi <;> simp_all [OpsGo.numberUpperBound, VRange.numUpper, OpsGo.boundValue, hiOf, loOf]
+  | _ => simp_all [OpsGo.numberUpperBound, VRange.numUpper, OpsGo.boundValue, hiOf, loOf]
+theorem lower_of_number (r : VRange) (h : r.ty.isNumber = true) :
+    OpsGo.numberLowerBound r = .ok (numVal (loOf r), true) := by
+  obtain ⟨ty, raw⟩ := r
+  have hd := notDyn_of_isNumber h
+  cases raw with
+  | num n lo hi => cases lo <;> simp_all [OpsGo.numberLowerBound, VRange.numLower, OpsGo.boundValue, hiOf, loOf]
+  | _ => simp_all [OpsGo.numberLowerBound, VRange.numLower, OpsGo.boundValue, hiOf, loOf]
+theorem numUpper_of_number (r : VRange) (h : r.ty.isNumber = true) :
+    r.numUpper = .ok (some (hiOf r)) := by
+  obtain ⟨ty, raw⟩ := r
+  have hd := notDyn_of_isNumber h
+  cases raw with
+  | num n lo hi => cases hi <;> simp_all [VRange.numUpper, hiOf, loOf]
+  | _ => simp_all [VRange.numUpper, hiOf, loOf]
+theorem numLower_of_number (r : VRange) (h : r.ty.isNumber = true) :
+    r.numLower = .ok (some (loOf r)) := by
+  obtain ⟨ty, raw⟩ := r
+  have hd := notDyn_of_isNumber h
+  cases raw with
+  | num n lo hi => cases lo <;> simp_all [VRange.numLower, hiOf, loOf]
+  | _ => simp_all [VRange.numLower, hiOf, loOf]
+
+theorem lt_unmarked (n : Nat) (a b : Value) (ha : a.isMarked = false) (hb : b.isMarked = false) :
+    Value_LessThan_fuel (n + 2) a b = lessThanU a b := by
+  rw [Value_LessThan_fuel]
+  simp only [OpsGo.isMarked, ha, hb, after_typeCheck, lessThanU, mbind_eq]
+  cases htc : Value.typeCheck .number [a, b] with
+  | ok tc =>
+    cases tc
+    case none => simp [OpsGo.asFloat]
+    all_goals
+      simp only [tail_bool_dyn, tail_bool_unk, rangeLess, OpsGo.range, mbind_eq, OpsGo.typeConstraint, Res.pure_eq]
+      cases hra : a.range <;> simp
+      cases hrb : b.range <;> simp
+      rename_i ra rb
+      by_cases hna : ra.ty.isNumber = true <;> simp [hna]
+      by_cases hnb : rb.ty.isNumber = true <;> simp [hnb]
+      simp only [upper_of_number _ hna, lower_of_number _ hnb, lower_of_number _ hna, upper_of_number _ hnb,
+        numUpper_of_number _ hna, numLower_of_number _ hnb, numLower_of_number _ hna, numUpper_of_number _ hnb,
+        rbind_ok, isKnown_numVal, Bool.and_self, if_true, lt_known, gt_known, isTrue_boolVal]
+      simp
+      split
+      · simp [*]
+      · split <;> simp [*]
+  | err e => rfl
+  | panic w => rfl
+  | unmodelled => rfl
+
+theorem gt_unmarked (n : Nat) (a b : Value) (ha : a.isMarked = false) (hb : b.isMarked = false) :
+    Value_GreaterThan_fuel (n + 2) a b = greaterThanU a b := by
+  rw [Value_GreaterThan_fuel]
+  simp only [OpsGo.isMarked, ha, hb, after_typeCheck, greaterThanU, mbind_eq]
+  cases htc : Value.typeCheck .number [a, b] with
+  | ok tc =>
+    cases tc
+    case none => simp [OpsGo.asFloat]
+    all_goals
+      simp only [tail_bool_dyn, tail_bool_unk, OpsGo.range, mbind_eq, OpsGo.typeConstraint, Res.pure_eq]
+      cases hra : a.range <;> simp
+      cases hrb : b.range <;> simp
+      rename_i ra rb
+      by_cases hna : ra.ty.isNumber = true <;> simp [hna]
+      by_cases hnb : rb.ty.isNumber = true <;> simp [hnb]
+      simp only [upper_of_number _ hna, lower_of_number _ hnb, lower_of_number _ hna, upper_of_number _ hnb,
+        numUpper_of_number _ hna, numLower_of_number _ hnb, numLower_of_number _ hna, numUpper_of_number _ hnb,
+        rbind_ok, isKnown_numVal, Bool.and_self, if_true, lt_known, gt_known, isTrue_boolVal]
+      simp
+  | err e => rfl
+  | panic w => rfl
+  | unmodelled => rfl
+
+/-- `Value.LessThan`, translated, is the hand-written `Value.lessThan` -/
+theorem lt_fuel_eq (n : Nat) (a b : Value) (ha : Single a) (hb : Single b) : Value_LessThan_fuel (n + 3) a b = Value.lessThan a b :=
+  binary_tie (fun k => Value_LessThan_fuel (k + 1)) lessThanU lt_unmarked
+    (fun n v w h => by
+      show Value_LessThan_fuel (n + 2) v w = _
+      rw [Value_LessThan_fuel]; simp [OpsGo.isMarked, h, OpsGo.unmark, OpsGo.withMarks, OpsGo.unionAll]) n a b ha hb
+
+/-- `Value.GreaterThan`, translated, is the hand-written `Value.greaterThan` -/
+theorem gt_fuel_eq (n : Nat) (a b : Value) (ha : Single a) (hb : Single b) : Value_GreaterThan_fuel (n + 3) a b = Value.greaterThan a b :=
+  binary_tie (fun k => Value_GreaterThan_fuel (k + 1)) greaterThanU gt_unmarked
+    (fun n v w h => by
+      show Value_GreaterThan_fuel (n + 2) v w = _
+      rw [Value_GreaterThan_fuel]; simp [OpsGo.isMarked, h, OpsGo.unmark, OpsGo.withMarks, OpsGo.unionAll]) n a b ha hb
+
 /-! ### the entry points (`opsFuel` suffices) -/
 
 theorem not_eq (a : Value) (ha : Single a) : Value_Not a = Value.not a := not_fuel_eq 2 a ha
@@ -493,6 +611,125 @@ theorem add_eq (a b : Value) (ha : Single a) (hb : Single b) : Value_Add a b = V
 theorem sub_eq (a b : Value) (ha : Single a) (hb : Single b) : Value_Subtract a b = Value.sub a b := sub_fuel_eq 2 a b ha hb
 theorem mul_eq (a b : Value) (ha : Single a) (hb : Single b) : Value_Multiply a b = Value.mul a b := mul_fuel_eq 2 a b ha hb
 theorem mod_eq (a b : Value) (ha : Single a) (hb : Single b) : Value_Modulo a b = Value.mod a b := mod_fuel_eq 2 a b ha hb
+theorem lt_eq (a b : Value) (ha : Single a) (hb : Single b) : Value_LessThan a b = Value.lessThan a b := lt_fuel_eq 1 a b ha hb
+theorem gt_eq (a b : Value) (ha : Single a) (hb : Single b) : Value_GreaterThan a b = Value.greaterThan a b := gt_fuel_eq 1 a b ha hb
+
+/-- the marks prologue keeps the single-layer shape: what an operation answers has at most one marker layer -/
+theorem single_withMarks (x : Value) (ms : List String) (hx : Single x) : Single (x.withMarks ms) := by
+  unfold Single Value.unmark Value.isMarked Value.withMarks Payload.withMarks at *
+  simp only
+  split
+  · exact hx
+  · cases hp : x.v <;> simp_all [Payload.unmark1, Payload.isMarked]
+
+/-- `LessThanOrEqualTo`, translated, is the hand-written one: the `Or` of `LessThan` and `Equals`.  The operands of
+that `Or` are results of operations; `hs` says they have at most one marker layer (every well-formed value has). -/
+theorem le_eq (a b : Value) (ha : Single a) (hb : Single b)
+    (hs : ∀ l e, Value.lessThan a b = .ok l → Value.equals a b = .ok e → Single l ∧ Single e) :
+    Value_LessThanOrEqualTo a b = Value.lessThanOrEqualTo a b := by
+  unfold Value_LessThanOrEqualTo Value.lessThanOrEqualTo
+  rw [lt_eq a b ha hb]
+  simp only [mbind_eq, OpsGo.equals]
+  cases hl : Value.lessThan a b <;> simp
+  cases he : Value.equals a b <;> simp
+  rename_i l e
+  exact or_eq l e (hs l e hl he).1 (hs l e hl he).2
+
+theorem ge_eq (a b : Value) (ha : Single a) (hb : Single b)
+    (hs : ∀ g e, Value.greaterThan a b = .ok g → Value.equals a b = .ok e → Single g ∧ Single e) :
+    Value_GreaterThanOrEqualTo a b = Value.greaterThanOrEqualTo a b := by
+  unfold Value_GreaterThanOrEqualTo Value.greaterThanOrEqualTo
+  rw [gt_eq a b ha hb]
+  simp only [mbind_eq, OpsGo.equals]
+  cases hl : Value.greaterThan a b <;> simp
+  cases he : Value.equals a b <;> simp
+  rename_i g e
+  exact or_eq g e (hs g e hl he).1 (hs g e hl he).2
+
+
+/-! ### results of operations have at most one marker layer, so the extra hypothesis of `le_eq` / `ge_eq` always holds -/
+
+theorem single_of_clean {r : Value} (h : r.Clean) : Single r := by
+  apply single_of_unmarked
+  unfold Value.Clean at h
+  unfold Value.isMarked
+  cases hv : r.v <;> simp_all [Payload.containsMarked, Payload.isMarked]
+
+theorem single_binMarks {g : Value → Value → Res Value} (hg : ∀ a b, (g a b).All Value.Clean) {a b r : Value}
+    (h : binMarks g a b = .ok r) : Single r := by
+  unfold binMarks at h
+  split at h
+  · obtain ⟨r0, h0, rfl⟩ := Res.map_eq_ok.mp h
+    exact single_withMarks _ _ (single_of_clean ((hg _ _).of_eq h0))
+  · exact single_of_clean ((hg _ _).of_eq h)
+
+theorem single_equals {a b r : Value} (h : Value.equals a b = .ok r) : Single r := by
+  unfold Value.equals at h
+  split at h
+  · obtain ⟨r0, h0, rfl⟩ := Res.map_eq_ok.mp h
+    exact single_withMarks _ _ (single_of_clean ((equalsP_clean _ _ _ _).of_eq h0))
+  · exact single_of_clean ((equalsP_clean _ _ _ _).of_eq h)
+
+/-- `Value.LessThanOrEqualTo`, translated, is the hand-written `Value.lessThanOrEqualTo` -/
+theorem le_eq' (a b : Value) (ha : Single a) (hb : Single b) :
+    Value_LessThanOrEqualTo a b = Value.lessThanOrEqualTo a b :=
+  le_eq a b ha hb fun l e hl he => ⟨single_binMarks lessThanU_clean hl, single_equals he⟩
+
+/-- `Value.GreaterThanOrEqualTo`, translated, is the hand-written `Value.greaterThanOrEqualTo` -/
+theorem ge_eq' (a b : Value) (ha : Single a) (hb : Single b) :
+    Value_GreaterThanOrEqualTo a b = Value.greaterThanOrEqualTo a b :=
+  ge_eq a b ha hb fun g e hg he => ⟨single_binMarks greaterThanU_clean hg, single_equals he⟩
+
+/-- a value whose marker structure is well formed has at most one marker layer on top -/
+theorem single_of_marksWF {a : Value} (h : a.MarksWF) : Single a := by
+  unfold Single Value.unmark Value.isMarked
+  obtain ⟨h1, _⟩ := h
+  cases hv : a.v <;> simp_all [Payload.unmark1, Payload.isMarked, Payload.markerWF]
+
+
+/-! ### the operation table of C04 over the translated methods -/
+
+/-- `Op.run` with the fourteen translated methods taken from `Generated/OpsFns.lean` -/
+def genRun : Op → List Value → Res Value
+  | .add, [a, b] => Value_Add a b
+  | .sub, [a, b] => Value_Subtract a b
+  | .mul, [a, b] => Value_Multiply a b
+  | .div, [a, b] => Value_Divide a b
+  | .mod, [a, b] => Value_Modulo a b
+  | .neg, [a] => Value_Negate a
+  | .abs, [a] => Value_Absolute a
+  | .not, [a] => Value_Not a
+  | .and, [a, b] => Value_And a b
+  | .or, [a, b] => Value_Or a b
+  | .lt, [a, b] => Value_LessThan a b
+  | .gt, [a, b] => Value_GreaterThan a b
+  | .le, [a, b] => Value_LessThanOrEqualTo a b
+  | .ge, [a, b] => Value_GreaterThanOrEqualTo a b
+  | op, args => op.run args
+
+/-- the operations whose definition `genRun` takes from the translated source -/
+def translatedOps : List Op := [.add, .sub, .mul, .div, .mod, .neg, .abs, .not, .and, .or, .lt, .gt, .le, .ge]
+
+theorem genRun_eq (op : Op) (args : List Value) (h : ∀ a ∈ args, Single a) : genRun op args = op.run args := by
+  unfold genRun
+  split
+  next a b => exact add_eq a b (h a (by simp)) (h b (by simp))
+  next a b => exact sub_eq a b (h a (by simp)) (h b (by simp))
+  next a b => exact mul_eq a b (h a (by simp)) (h b (by simp))
+  next a b => exact div_eq a b (h a (by simp)) (h b (by simp))
+  next a b => exact mod_eq a b (h a (by simp)) (h b (by simp))
+  next a => exact neg_eq a (h a (by simp))
+  next a => exact abs_eq a (h a (by simp))
+  next a => exact not_eq a (h a (by simp))
+  next a b => exact and_eq a b (h a (by simp)) (h b (by simp))
+  next a b => exact or_eq a b (h a (by simp)) (h b (by simp))
+  next a b => exact lt_eq a b (h a (by simp)) (h b (by simp))
+  next a b => exact gt_eq a b (h a (by simp)) (h b (by simp))
+  next a b => exact le_eq' a b (h a (by simp)) (h b (by simp))
+  next a b => exact ge_eq' a b (h a (by simp)) (h b (by simp))
+  next => rfl
+
+theorem single_unmarkDeep (a : Value) : Single a.unmarkDeep := single_of_clean (Value.clean_unmarkDeep a)
 
 end OpsFnsTie
 end CtyModel
